@@ -17,6 +17,8 @@ import (
 // ---- C08: registration validated up front (engine E over histories) ----
 
 var c08WellFormed = []string{
+	// literal text with every kind of punctuation next to binds (accepted, and reachable by their own instances)
+	"/x{p}$", "/${p}", "/e/$H-{t}", "/c/{p}$/d", "/a^b", "/x{p}~", "/@{p}", "/x{p}!y", "/a&{p}", "/x'{p}", "/({p})", "/*{p}", "/{p};{q}", "/{p}%7E", "/a={p}",
 	"/", "/a", "/b", "/a/", "/a/b", "/a/?b", "/a/?", "/?", "/?b", "/?{p}", "/{p}", "/{q}", "/{p}/b", "/a/{p}", "/a/?{p}",
 	"/{r: /a|c/}", "/{r: /a|c/}/b", "/a-{t}", "/a+b{c}", "/p(q{c}", "/{g: /(a|c)+/}/b", "/{g: /(a|c)+/}",
 	"/{m: **}", "/{n: **}", "/{m: **, capture: 2}", "/{**}", "/{m: **}/x", "/{n: **}/y", "/{m: **}/x/{k: **}",
@@ -108,7 +110,27 @@ func c08Category(reason string) string {
 // unclassified shape or undetermined grammar); bad != "" on a disagreement.
 func c08Step(m *ref.Matcher, tree route.Tree, trie *ref.Trie, e c08Entry) (verdict, bad, key string) {
 	if !e.Determined {
-		return "skip", "", ""
+		// the documentation does not settle whether the text is a route (characters on which README and lexer
+		// differ): no verdict on acceptance - but once it is accepted, it is reachable by its own instances
+		if e.AST == nil {
+			return "skip", "", ""
+		}
+		rf := astToRef(e.AST)
+		if reason, other := trie.Validate(rf); reason != "" || other {
+			return "skip", "", ""
+		}
+		_, err, pan := safeAddRoute(tree, e.AST)
+		if pan != nil {
+			return "reject", fmt.Sprintf("AddRoute panicked at run time instead of returning a verdict: %v", pan), "runtime-panic-at-registration/undetermined-grammar"
+		}
+		if err != nil {
+			return "skip", "", ""
+		}
+		trie.Add(rf)
+		if bad, key := c08OwnInstances(m, tree, trie, rf); bad != "" {
+			return "accept", bad, key
+		}
+		return "accept", "", ""
 	}
 	if !e.Gram {
 		if e.AST != nil {
@@ -137,9 +159,17 @@ func c08Step(m *ref.Matcher, tree route.Tree, trie *ref.Trie, e c08Entry) (verdi
 	if err != nil {
 		return "accept", "rejected although it is well-formed and collides with nothing: " + err.Error(), "rejected-but-wellformed/" + c08Shape(e.Ref)
 	}
-	idx := trie.Add(e.Ref)
-	// reachable by its own instances subject only to priority
-	for fi, form := range e.Ref.Forms() {
+	trie.Add(e.Ref)
+	if bad, key := c08OwnInstances(m, tree, trie, e.Ref); bad != "" {
+		return "accept", bad, key
+	}
+	_ = leaf
+	return "accept", "", ""
+}
+
+// c08OwnInstances: a route that was just accepted is reachable by its own instances subject only to priority.
+func c08OwnInstances(m *ref.Matcher, tree route.Tree, trie *ref.Trie, rt ref.Route) (bad, key string) {
+	for fi, form := range rt.Forms() {
 		inst, ok := m.Instance(form)
 		if !ok {
 			continue
@@ -147,22 +177,20 @@ func c08Step(m *ref.Matcher, tree route.Tree, trie *ref.Trie, e c08Entry) (verdi
 		raw := "/" + strings.Join(inst, "/")
 		got, _, found, mpan := safeMatch(tree, raw, nil)
 		if mpan != nil {
-			return "accept", fmt.Sprintf("serving its own instance %q panicked: %v", raw, mpan), "instance-panic"
+			return fmt.Sprintf("serving its own instance %q panicked: %v", raw, mpan), "instance-panic"
 		}
 		want := trie.Match(m, ref.SplitPath(raw), nil)
 		if !want.Found {
 			continue // instance trimmed to something else (e.g. leading empty segment)
 		}
 		if !found {
-			return "accept", fmt.Sprintf("accepted but its own instance %q (form %d) is not found", raw, fi), "unreachable-after-accept/" + c08Shape(e.Ref)
+			return fmt.Sprintf("accepted but its own instance %q (form %d) is not found", raw, fi), "unreachable-after-accept/" + c08Shape(rt)
 		}
 		if got.Route() != trie.Routes[want.Route].Text() {
-			return "accept", fmt.Sprintf("instance %q dispatched to %q, priority picks %q", raw, got.Route(), trie.Routes[want.Route].Text()), "instance-wrong-winner"
+			return fmt.Sprintf("instance %q dispatched to %q, priority picks %q", raw, got.Route(), trie.Routes[want.Route].Text()), "instance-wrong-winner"
 		}
-		_ = idx
 	}
-	_ = leaf
-	return "accept", "", ""
+	return "", ""
 }
 
 // c08DeepTexts: routes of four to eight bind-carrying segments that share long prefixes and differ in the
